@@ -199,7 +199,7 @@ func (c *c08Child) run(goType, entry string, data []byte) string {
 	switch {
 	case strings.Contains(msg, "stack overflow") || strings.Contains(msg, "stack exceeds"):
 		return "crash:stack-overflow"
-	case strings.Contains(msg, "out of memory") || strings.Contains(msg, "cannot allocate") || strings.Contains(msg, "pthread_create failed"):
+	case strings.Contains(msg, "out of memory") || strings.Contains(msg, "cannot allocate") || strings.Contains(msg, "pthread_create failed") || strings.Contains(msg, "failed to create new OS thread"):
 		return "crash:out-of-memory"
 	}
 	if os.Getenv("VERIF_DEBUG") != "" {
